@@ -29,7 +29,7 @@ pub fn ctor<const N: usize, P: Pad>(ctx: &mut Ctx) {
         let key = hash64(&format!("ctor-iter|{}|{}|{}", N, P::NAME, k));
         if ctx.mine_next() && ctx.begin_case(|| format!("ctor N={} T={} from_iter items={}", N, P::NAME, k)) {
             ledger_reset();
-            for hint in 0..4u8 {
+            for hint in 0..5u8 {
                 ledger_reset();
                 from_iter_case::<N, P>(k, hint, None, ctx, &FOL);
             }
